@@ -129,7 +129,7 @@ type FProc struct {
 	code      int
 	bySig     bool
 	inCleanup bool
-	dying     bool // lethal signal received, death pending
+	dying     bool          // lethal signal received, death pending
 	dieAt     time.Duration // not before this virtual time (slowly dying processes)
 	dieCode   int
 	stdout    *pipe
